@@ -332,7 +332,8 @@ func (s *Sched) yield(t *Thread, en func() bool, desc string) {
 	t.enabled = en
 	t.Desc = desc
 	s.mix(t, desc)
-	if en != nil && !en() && s.trace {
+	if en != nil && !en() {
+		// where the thread blocks is part of violation signatures: it must not depend on tracing
 		t.BlockSite = callerSite()
 	}
 	next := s.pickNext(t)
